@@ -10,6 +10,8 @@ Search (direct oracles on the implementation only):
   delete         the result changes when rules whose condition is false / not evaluable are deleted
   append         merchant/category/subcategory change when rules are appended after the winner
   transforms     normalize_merchant(d, transforms) != normalize_merchant(transformed d, no transforms)
+  aborted        any exception escapes match()/normalize_merchant (since /repo 58dcdc1 evaluation errors are ExpressionErrors
+                 and skip the rule; RCrash stays in the model so that a regression shows up in the oracle tables and here)
 """
 import copy
 import json
@@ -114,10 +116,17 @@ def judge_base(c, jr, ti):
     if c['kind'] == 'rules':
         if 'oracle' not in tr:
             return out
-        if crashy(tr):
-            return out
-        if 'crash' in tr['fm']:
-            out.append(('first', {'why': 'match() raised although no rule evaluation raises', 'observed': tr['fm']}, None))
+        aborted = [k for k, r in (('match(first_match)', tr['fm']), ('match(most_specific)', tr['ms']),
+                                  ('normalize_merchant(first_match)', (tr.get('norm') or {}).get('first_match') or {}),
+                                  ('normalize_merchant(most_specific)', (tr.get('norm') or {}).get('most_specific') or {}))
+                   if 'crash' in r]
+        if aborted or crashy(tr):
+            # since /repo 58dcdc1 every evaluation error is an ExpressionError (rule skipped): an exception escaping
+            # match()/normalize_merchant aborts classification of the transaction
+            out.append(('aborted', {'why': 'an exception escapes ' + ', '.join(aborted or ['the per-rule evaluation']) +
+                                           ': classification of the transaction is aborted',
+                                    'exception': [tr['fm'].get('crash'), tr['ms'].get('crash')],
+                                    'oracle_cond': tr['oracle'].get('cond'), 'gv_crash': tr['oracle'].get('gv_crash')}, None))
             return out
         e = expected_first(jr, tr)
         f = tr['fm']
@@ -138,11 +147,11 @@ def judge_base(c, jr, ti):
             if (e is None and got[1:] != want[1:]) or (e is not None and got != want):
                 out.append(('first', {'why': 'normalize_merchant: not the first categorizing rule whose condition is true',
                                       'expected': want, 'observed': n}, None))
-        elif n is not None and 'crash' in n and not any(x[1] == 'crash' for fl in tr['oracle']['fields'] for x in fl):
-            out.append(('first', {'why': 'normalize_merchant raised although no rule evaluation raises', 'observed': n}, None))
     else:
         n = tr['norm']
         if 'crash' in n:
+            out.append(('aborted', {'why': 'an exception escapes normalize_merchant (legacy loop): classification aborted',
+                                    'exception': n['crash']}, None))
             return out
         e = first_cat(jr['rules'], tr['direct'])
         want = ['?', 'Unknown', 'Unknown'] if e is None else [jr['rules'][e][k] for k in ('merchant', 'category', 'subcategory')]
@@ -169,7 +178,8 @@ def variants(ci, c, jr, rnd):
     reqs = []
     for ti, (t, tr) in enumerate(zip(c['txns'], jr['txns'])):
         if c['kind'] == 'rules':
-            if 'oracle' not in tr or crashy(tr) or 'crash' in tr['fm']:
+            if 'oracle' not in tr or crashy(tr) or 'crash' in tr['fm'] or 'crash' in tr['ms'] or \
+                    any('crash' in n for n in (tr.get('norm') or {}).values()):
                 continue
             cond = tr['oracle']['cond']
             f = c['file']
@@ -423,7 +433,7 @@ def main(tier):
 
     # evidence
     win_hist, nm_hist, nontrivial, evals = {}, {}, set(), 0
-    out_hist = {}
+    out_hist, cond_hist = {}, {'RCrash': 0}
     for c, jr in zip(cases, base):
         if 'txns' not in jr:
             continue
@@ -431,8 +441,12 @@ def main(tier):
             evals += 1
             if c['kind'] == 'rules':
                 f = tr['fm']
+                for x in (tr.get('oracle') or {}).get('cond', []):
+                    hist_add(cond_hist, {'T': 'RTrue', 'F': 'RFalse', 'S': 'RSkip', 'C': 'RCrash'}[x])
+                if (tr.get('oracle') or {}).get('gv_crash'):
+                    hist_add(cond_hist, 'RCrash(global variables)')
                 if 'crash' in f:
-                    hist_add(out_hist, 'rules:evaluator-raises')
+                    hist_add(out_hist, 'rules:exception-escapes')
                     continue
                 hist_add(out_hist, 'rules:' + ('matched' if f['matched'] else 'unknown'))
                 hist_add(win_hist, f['matched_rule'])
@@ -456,10 +470,10 @@ def main(tier):
         'rule': 'distinct (rule file, transaction) pairs in which >= 2 rules match and the winner is not the first rule; files of 1-8 '
                 'rules (40% tag-only), overlapping patterns over a 6-word vocabulary, all match functions, amount/date/field/source '
                 'comparisons, and/or/not, variables, let, field:, priority, static+dynamic tags, transforms; legacy CSV rows with every '
-                'modifier form; boundary amounts/dates; ExpressionError-raising and crashing conditions',
+                'modifier form; boundary amounts/dates; ill-typed / unevaluable conditions, lets, tags and fields (rule skipped)',
         'samples': [{'text': render_rules(cases[0]['file']), 'txn': cases[0]['txns'][0]},
                     {'text': render_csv(cases[-2]['file']), 'txn': cases[-2]['txns'][0]}],
-        'index_of_winning_rule_histogram': win_hist, 'number_of_matching_rules_histogram': nm_hist, 'outcome_histogram': out_hist,
+        'index_of_winning_rule_histogram': win_hist, 'number_of_matching_rules_histogram': nm_hist, 'outcome_histogram': out_hist, 'oracle_condition_outcomes': cond_hist,
         'base_pairs': evals, 'metamorphic_variants': stats['variants'], 'unknown_descriptions': stats['unknown_descriptions'],
         'unknown_descriptions_seen_repeatedly': stats['unknown_descriptions_seen_repeatedly'],
         'model_vs_impl_cases_in_coq': n_rows, 'model_vs_impl_disagreements': None if bad is None else len(bad),
